@@ -464,6 +464,11 @@ for rnd in range(3 if not THOROUGH else 12):
         verdict_case("chain-overlap", enc(successor(skr, zskpol, n=n, overlap=ov)), sdoc, n, n_prev)
     verdict_case("chain-keys-disjoint", enc(successor(skr, zskpol, n=n, first_keys=[ZSKS[3]])), sdoc, n, n_prev)
     verdict_case("chain-keys-subset", enc(successor(skr, zskpol, n=n, first_keys=pub[:1])), sdoc, n, n_prev)
+    # other key material under the identifiers the previous SKR published (tag, proof of possession and all in order): not the published keys
+    fk_ = [dict(ZSKS[3], id=pub[0]["id"])] + pub[1:]
+    verdict_case("chain-keys-same-identifier-other-key", enc(successor(skr, zskpol, n=n, first_keys=fk_)), sdoc, n, n_prev, expect="not-OK",
+                 shape=([len(fk_)] + [1] * (n - 1), len({k["pub"] for k in fk_})))
+    verdict_case("chain-keys-disjoint", enc(successor(skr, zskpol, n=n, first_keys=[ZSKS[3]], rid=f"dj-{rnd}")), sdoc, n, n_prev, expect="not-OK")
     verdict_case("bundle-count", enc(ok), sdoc, n + 1, n_prev, shape=(shape_of(ok)[0] + [1], 2))
     bad = copy.deepcopy(ok)
     sd = bytearray(bad["bundles"][0]["sigs"][0]["data"])
